@@ -446,6 +446,16 @@ func (l *memoryBlockList) allocPage(size int, alignment uint, createInfo *Alloca
 			l.incrementallySortBlocks()
 			return res, nil
 		}
+
+		// The block that was created for this request cannot hold it (the request can outgrow the block once it is
+		// rounded up to the buffer-image granularity). Give it back rather than collecting one more empty block
+		// with every such request.
+		l.Remove(block)
+		err = block.Destroy()
+		if err != nil {
+			panic(fmt.Sprintf("unexpected failure when destroying a memory block that was never allocated from: %+v", err))
+		}
+		blockPool.Put(block)
 	}
 
 	return core1_0.VKErrorOutOfDeviceMemory, core1_0.VKErrorOutOfDeviceMemory.ToError()
